@@ -5,7 +5,7 @@ import itertools
 
 import numpy as np
 
-from checks.common import hash_tag, relayout, xf_build, xf_names, canon_value, quiet_call
+from checks.common import hash_tag, relayout, xf_build, xf_names, canon_value, quiet_call, si_cells
 from qmc import gen as G
 from qmc import oracle as O
 from qmc.loader import load
@@ -19,8 +19,8 @@ RULE = (
     "both entry points (tridiagonalize, quaternion_eigendecomposition); non-trivial = A non-zero; distinct = sha1(input, entry)"
 )
 BOUNDS = {
-    "quick": "n<=4 all compositions x all injective value assignments (capped 24 per composition) x {id, monomial, Householder}; n=2 all 144 integer matrices; n=3 8 masks x 5 letters x 3 diagonals; n=4 64 masks",
-    "thorough": "n<=6, up to 60 value assignments per composition",
+    "quick": "n<=4 all compositions x all injective value assignments (capped 24 per composition) x {id, monomial, Householder}; n=2 all 144 integer matrices; n=3 8 masks x 5 letters x 3 diagonals; n=4 64 masks; exhaustive Hermitian small-integer cells: diagonal over {-1,0,1}, off-diagonal over {0,1,-1,i,j,k}: all 2x2, every 3rd 3x3",
+    "thorough": "n<=6, up to 60 value assignments per composition; exhaustive Hermitian small-integer cells in full (2x2, 3x3: diagonal {-1,0,1}, off-diagonal {0,1,-1,i,j,k})",
 }
 THOROUGH_STREAMS = 8
 WALL_BUDGET = {"quick": 300, "thorough": 2400}
@@ -73,6 +73,10 @@ def cases(tier, seed):
     for n in range(1, N + 2):
         for nm in xf_names(n, n, hermitian=True):
             out.append({"key": f"xf/n={n}/{nm}", "grp": "xf", "n": n, "xf": nm})
+    # exhaustive small-integer Hermitian matrices (every matrix over a small alphabet: exact ties, exact dependencies, exactly invariant subspaces)
+    for n_, _n2, names in si_cells(tier, hermitian=True):
+        for nm in names:
+            out.append({"key": f"si/n={n_}/{nm}", "grp": "xf", "n": n_, "xf": nm, "_fixed": True})
     # distinct eigenvalues closer than any "looks repeated" heuristic (relative gaps 3e-6, 8e-6, 2^-30) next to well separated ones
     CLOSE = [[1.0, 1.0 + 3e-6, 0.5], [2.0, 2.0 + 8e-6, 2.0 + 1.6e-5, -1.0], [-3.0, -3.0 - 2.0 ** -30 * 3, 1.0, 4.0], [1.0, 1.0 + 2.0 ** -20, 1.0 + 2.0 ** -19, 1.0 + 3 * 2.0 ** -20, 7.0]]
     for ci, lam in enumerate(CLOSE):
